@@ -31,24 +31,43 @@ def run(chk):
     thorough = chk.tier == 'thorough'
     ok, msg = regen()
     if not ok:
+        # the model cannot be regenerated: the proof obligation is open; the search for a failing input still runs on the
+        # implementation alone, against the independent window formula
         chk.tie_broken('translator', msg)
+        okh, hlog = build_harness(('release',))
+        if not okh:
+            chk.tie_broken('harness-build', hlog[-600:])
+            return
     else:
         chk.prove('props/C11.v')
-    if not prepare(chk):
-        return
+        if not prepare(chk):
+            return
     good = framegen.make_libzstd_frames(rng, 2, 'tiny')[0]['frame']
     cases, lines = [], []
     wds = list(range(256)) if thorough else sorted(set([0, 1, 7, 8, 0x88, 0x89, 0xF8, 0xFE, 0xFF] + [rng.below(256) for _ in range(40)]))
     items = [('wd', wd, window_of(wd)) for wd in wds]
     for fcs in [0, 1, 255, 256, 1023, 1024, 65791, 65792, (128 << 20), (128 << 20) + 1, 2 ** 32 - 1, 2 ** 32, MAXW, MAXW + 1, 2 ** 63, 2 ** 64 - 1] + [rng.below(2 ** 40) for _ in range(10)]:
         items.append(('fcs', fcs, fcs))
+    # a window descriptor together with a content-size field (2, 4 or 8 bytes): the window is still the descriptor's
+    for wd in (wds if thorough else wds[::4] + [0x88, 0x90, 0xF8]):
+        for fl, n in ((1, 2), (2, 4), (3, 8)):
+            fcs = rng.choice([0, 1, 1000, 70000, 2 ** 31])
+            fcs = min(fcs, 2 ** (8 * n) - 1)
+            items.append(('wd+fcs%d' % n, (wd, fl, n, fcs), window_of(wd)))
     for kind, v, w in items:
-        f = tiny_frame(wd=v) if kind == 'wd' else tiny_frame(fcs=v)
+        if kind.startswith('wd+fcs'):
+            wd, fl, n, fcs = v
+            f = b'\x28\xb5\x2f\xfd' + bytes([fl << 6, wd]) + fcs.to_bytes(n, 'little') + framegen.block_header(1, 0, 0)
+            v = wd * 1000 + n
+        else:
+            f = tiny_frame(wd=v) if kind == 'wd' else tiny_frame(fcs=v)
         limits = sorted(set(min(x, 2 ** 64 - 1) for x in [0, max(w - 1, 0), w, w + 1, 128 << 20, MAXW - 1, MAXW, MAXW + 1, 2 ** 64 - 1]))
         if not thorough:
             limits = [l for l in limits if l in (max(w - 1, 0), w, min(w + 1, 2 ** 64 - 1))] + [rng.choice([128 << 20, MAXW, 2 ** 64 - 1, None])]
         for lim in limits:
             for path in ('fresh', 'reused', 'after-error', 'decode_all', 'streaming'):
+                if kind.startswith('wd+fcs') and path == 'decode_all':
+                    continue        # (the declared content size of these header-only frames is not their content)
                 pre = 'maxwin=%d ' % lim if lim is not None else ''
                 if path == 'fresh':
                     prog = pre + 'src=%s I' % hexs(f)
@@ -69,7 +88,7 @@ def run(chk):
                 cases.append((kind, v, w, lim, path, expect_ok))
                 lines.append(prog)
     impl, mod, dis = run_programs(chk, 'window-limit', lines,
-                                  describe=lambda i: '%s=%d window %d limit %s path %s' % cases[i][:5])
+                                  describe=lambda i: '%s=%d window %d limit %s path %s' % cases[i][:5], model=ok)
     nbad = 0
     for (kind, v, w, lim, path, expect_ok), t, ln in zip(cases, impl, lines):
         last = t[-1] if t else ''
